@@ -13,6 +13,7 @@ CONSTANTS
   Sizes = {1}
   IgnoreOpts = {FALSE}
   MaxApp = 1
+  MaxRefused = 0
   MaxFlight = 8
   Senders = {"I", "R"}
   MaxFaults = 1
